@@ -618,6 +618,7 @@ COMPAT_LEAVES = [
     ('int', 0, 1), ('int', 1, 2), ('int', 1, 1), ('int', 0, 0), ('int', 0, 3), ('int', -5, 100),
     ('double', 0.0, 1.0, None, None), ('double', 2.0, 9.5, None, None), ('double', 0.0, 10.0000005, None, None),
     ('scaled', 0.1, 0.0, 5.0), ('scaled', 0.1, -1.0, 11.0), ('scaled', 0.5, 0.0, 10.0),
+    ('scaled', 0.1, -0.3, 0.3), ('scaled', 0.1, -0.2, 0.2), ('scaled', 0.7, -4.2, 4.2), ('scaled', 0.7, -4.9, 4.9),   # decimal-literal limits
     ('enum', (('a', 1), ('b', 2), ('c', 3))), ('enum', (('z', 0), ('a', 1), ('b', 2), ('c', 3))), ('enum', (('b', 1), ('a', 2))),
     ('enum', (('five', 5),)),
     ('string', 1, 2, False), ('string', 0, 3, True), ('blob', 1, 3), ('blob', 0, 256),
@@ -669,7 +670,8 @@ def pair_types(tier):
         res += [('array', c, 0, 2), ('array', c, 1, 1), ('tuple', (i09, c)), ('struct', (('a', c), ('b', i09)), ('b',))]
     res += command_pair_types()
     if tier == 'thorough':
-        res += T.all_types('thorough', 3) + H.ext_types() + command_types()
+        res += T.all_types('thorough', 3) + H._ext_types() + command_types()
+        res += [t for t in H.scaled_grid_types() if t[0] == 'scaled' and abs(t[3]) <= 8.5 * t[1]]   # n <= 8 per scale
     seen, out = set(), []
     for t in res:
         if t not in seen:
@@ -855,7 +857,8 @@ class Compat:
                 sa, sb = self.localise(a, b, fails)
                 wv, wexc = self.refused(sa, sb)[0]
                 shape = H.shape(sa, wv) if sa[0] == 'struct' else sa[0]
-                what = f'valid-{wv[0]}-refused' if sa[0] == 'command' == sb[0] else 'valid-value-refused'
+                what = f'valid-{wv[0]}-refused' if sa[0] == 'command' == sb[0] else \
+                    'valid-value-refused' + (probe_class(sb, wv, 'drv') if sb[0] in KINDCLASS and sa[0] in KINDCLASS else '')
                 part.violation(f'C03:compatible:{shape}:passes-into-{KINDCLASS.get(sb[0], sb[0])}:{what}',
                                case,
                                f'{sstr(a)} .compatible( {sstr(b)} ) returns, but {self.witness_text(sa, sb, ref[0][0])} '
